@@ -160,6 +160,7 @@ type S struct {
 	choose   func(n int) int
 	steps    int
 	maxSteps int
+	maxPre   int
 	aborting bool
 	inSched  bool // a hook is running on the scheduler goroutine
 	res      *Result
@@ -274,7 +275,14 @@ func (s *S) opEnabled(t *Thread, op Op) bool {
 // Config bounds one execution.
 type Config struct {
 	MaxSteps int // 0 = 20000
+	// MaxPreemptions bounds the number of preemptions (switching away from a thread
+	// that could have continued) in one execution: once the budget is spent the running
+	// thread keeps the baton for as long as it is enabled. Unbounded (-1) = no bound.
+	MaxPreemptions int
 }
+
+// Unbounded is the MaxPreemptions value for "every schedule".
+const Unbounded = -1
 
 // Run executes one schedule. setup runs first on the caller's goroutine (create
 // objects, s.Go the initial threads; sync operations performed there take effect
@@ -285,7 +293,7 @@ func Run(cfg Config, choose func(n int) int, setup func(s *S)) *Result {
 	if cur != nil {
 		panic("VERIF-INFRA: sched.Run is not reentrant")
 	}
-	s := &S{back: make(chan struct{}), choose: choose, maxSteps: cfg.MaxSteps, res: &Result{}}
+	s := &S{back: make(chan struct{}), choose: choose, maxSteps: cfg.MaxSteps, maxPre: cfg.MaxPreemptions, res: &Result{}}
 	if s.maxSteps == 0 {
 		s.maxSteps = 20000
 	}
@@ -376,6 +384,9 @@ func (s *S) loop() {
 			s.setFail(Infra, fmt.Sprintf("VERIF-INFRA: step bound %d exceeded (livelock or bound too small)", s.maxSteps))
 			s.abort()
 			return
+		}
+		if lastEnabled && s.maxPre >= 0 && s.res.Preemptions >= s.maxPre {
+			en = en[:1] // preemption budget spent: the running thread continues
 		}
 		idx := 0
 		if len(en) > 1 {
